@@ -742,6 +742,7 @@ def synth_specs(assets, caps):
         sb = signed[0][1]
         for n in around(c["MAX_PE_CERTS"], 40):
             S.append(("pe_certs_%d" % n, (lambda n=n: pe_with_certs(sb, n)), "pe", "signatures", n))
+        S += cert_sequence_specs(assets, c["MAX_PE_CERTS"])
     E = c["MAX_NB_SECTIONS_elf"]
     for n in around(E, E + 1000):
         S.append(("elf_sections_%d" % n, (lambda n=n: elf32(nsections=n)), "elf", "sections", n))
@@ -1750,3 +1751,63 @@ def dex_class_data_family(real_dex=None):
                     struct.pack_into("<I", nb, off + 32 * i + 24, len(b))
                     struct.pack_into("<I", nb, 32, len(nb))
                     yield ("dex sample class %d list %d diffs %#x,%#x" % (i, li, a, c), bytes(nb))
+
+
+def win_certificate_entry(b):
+    """the first WIN_CERTIFICATE entry of a signed PE, padded to 8 bytes"""
+    nt = u32(b, 0x3c)
+    opt = nt + 24
+    dd = opt + (112 if u16(b, opt) == 0x20b else 96)
+    off = u32(b, dd + 32)
+    ln = u32(b, off)
+    e = bytes(b[off:off + ln])
+    return e + bytes((-len(e)) % 8)
+
+
+def pe_with_cert_sequence(base, entries):
+    """`base` (a signed PE) with its security directory replaced by the given sequence of WIN_CERTIFICATE entries"""
+    b = bytearray(base)
+    nt = u32(b, 0x3c)
+    opt = nt + 24
+    dd = opt + (112 if u16(b, opt) == 0x20b else 96)
+    while len(b) % 8:
+        b.append(0)
+    off = len(b)
+    blob = b"".join(entries)
+    b += blob
+    struct.pack_into("<II", b, dd + 32, off, len(blob))
+    return bytes(b)
+
+
+def cert_sequence_specs(assets, cap):
+    """Mixed sequences of single-signed ("s": 1 signature) and dual-signed ("d": a nested signature, 2 signatures)
+    WIN_CERTIFICATE entries in every order, with counts such that the running total crosses the documented maximum in
+    the middle of an entry (cap-1 then a dual one), lands exactly on it, or stays one below."""
+    single = [a for a in assets if a[0].endswith("/pe/signed/rsa_sha256.exe")]
+    dual = [a for a in assets if os.path.basename(a[0]).startswith("3b8b90159fa9b6048cc5")]
+    if not single or not dual:
+        return []
+    es, ed = win_certificate_entry(single[0][1]), win_certificate_entry(dual[0][1])
+    base = single[0][1]
+    seqs = set()
+    for ns in range(0, cap + 2):
+        # ns singles, then duals until the total passes the cap
+        nd = (cap - ns) // 2 + 1
+        seqs.add("s" * ns + "d" * nd)
+        seqs.add("d" * nd + "s" * ns)
+        if ns <= 4:
+            seqs.add("d" * ((cap - ns) // 2) + "s" * ns + "d")
+    for nd in range(0, cap // 2 + 2):
+        seqs.add("d" * nd + "s" * max(0, cap + 1 - 2 * nd))
+    seqs.add("sd" * (cap // 3 + 2))
+    seqs.add("ds" * (cap // 3 + 2))
+    seqs.add("s" + "d" * (cap // 2))           # 1 + 2*8 = 17 with cap 16
+    seqs.add("d" * (cap // 2))                 # exactly the cap
+    S = []
+    for q in sorted(seqs):
+        if not q:
+            continue
+        total = sum(1 if c == "s" else 2 for c in q)
+        S.append(("pe_certseq_" + "".join("%s%d" % (c, len(list(g))) for c, g in __import__("itertools").groupby(q)),
+                  (lambda q=q: pe_with_cert_sequence(base, [es if c == "s" else ed for c in q])), "pe", "signatures", total))
+    return S
